@@ -6,7 +6,7 @@ CHECK = {
                     "instances: library octet_ring (uint8_t) and harness instantiations of the same macro template for uint16_t/uint32_t"],
     "harnesses": [{
         "name": "c19_ring", "src": "harness/c19_ring.c", "shape": "estate",
-        "lib": ["src/octet-ring.c", "src/ring-buffer-iter.c"], "shards": 1, "min_outcomes": 8,
+        "lib": ["src/octet-ring.c", "src/ring-buffer-iter.c"], "shards": 16, "opt": "-O2", "min_outcomes": 8,
         "require_outcomes": {"any": ["put-evicts", "put-dropped", "get-empty", "get-oldest", "clear"]},
     }],
 }
